@@ -27,7 +27,7 @@ def fault_params(tier):
     D, L = fault_cfg(tier)
     shp = SHAPES_Q if tier == "quick" else SHAPES_T
     ps = [P("shape", 0, len(shp) - 1), P("fnode", 0, 3 if tier == "quick" else 4), P("phase", 0, 2), P("moment", 0, 1),
-          P("exckind", 0, 1), P("svc", 0, 3), P("byref", 0, 1), P("notimeout", 0, 1)]
+          P("exckind", 0, 1), P("svc", 0, 4), P("byref", 0, 1), P("notimeout", 0, 1)]
     for j in range(D):
         ps += [P(f"gap{j}", 0, L), P(f"arm{j}", 0, 4)]
     return ps
@@ -45,7 +45,8 @@ def fault_fn(a, tier):
     exckind = pick(a["exckind"], 2)
     # 0: nothing; 1: other nodes start a service slowly in start(); 2: ... whose startup stalls forever;
     # 3: other nodes start a task factory and a task with a slow start-up in it
-    svc = pick(a["svc"], 4)
+    # 4: other nodes are blocked in get_resource() for something nobody provides when the failure strikes
+    svc = pick(a["svc"], 5)
     byref = pick(a["byref"], 2)  # the failing component's type is given as a "module:attr" string
     notimeout = pick(a["notimeout"], 2)  # timeout=None: the documented way of disabling the start timeout
     tape = DeviationTape([(a[f"gap{j}"], a[f"arm{j}"]) for j in range(D)], L)
@@ -58,7 +59,10 @@ def fault_fn(a, tier):
     for i in range(n):
         prep = [("td", f"prep{i}"), ("cp",), ("pub", f"res{i}", object(), "default", [RT[i]]), ("cp",)]
         start = [("cp",), ("td", f"start{i}"), ("cp",)]
-        if svc == 3 and i != fnode:
+        if svc == 4:
+            if i != fnode and i not in below:
+                start.insert(1, ("wait", "never", RT[6], "never"))
+        elif svc == 3 and i != fnode:
             start.insert(1, ("tf", f"job{i}", 2))
         elif svc and i != fnode and not (svc == 2 and i in below):
             start.insert(1, ("svc", f"svc{i}", 2, svc == 2, "callable" if i % 2 else "cancel"))
@@ -75,7 +79,7 @@ def fault_fn(a, tier):
     out = {}
 
     async def main():
-        async with Context():
+        async with Context() as ctx:
             try:
                 await start_component("harness.ctree:REFS.c0" if (byref and fnode == 0) else classes[0], {}, timeout=None if notimeout else 1000)
                 out["outcome"] = None
@@ -83,6 +87,12 @@ def fault_fn(a, tier):
                 out["outcome"] = e
             k = symsched.kernel()
             out["live"] = [t.name for t in k.live_tasks() if t is not k.current]
+            # the surrounding context stays usable: a publication made now must work (nothing of the aborted start-up listens any more)
+            try:
+                ctx.add_resource(object(), "published_after_the_failure", [RT[5]])
+                out["after"] = None
+            except BaseException as e2:  # noqa
+                out["after"] = e2
             out["mark"] = len(env.log)
             for _ in range(5):
                 await anyio.sleep(0)
@@ -92,7 +102,7 @@ def fault_fn(a, tier):
 
     _, escaped, k = run(main, chooser=tape)
     summary = {"parents": parents, "failing_component": fnode, "phase": PHASES[phase], "moment": ["first statement", "after a checkpoint"][moment],
-               "exception": type(exc).__name__, "failing_component_declared_by": "'module:attr' string" if byref else "class object", "others_start_service": ["no", "slow startup", "startup stalls forever", "a task factory task with a slow start-up"][svc], "schedule": tape.taken, "timeout": None if notimeout else 1000}
+               "exception": type(exc).__name__, "failing_component_declared_by": "'module:attr' string" if byref else "class object", "others_start_service": ["no", "slow startup", "startup stalls forever", "a task factory task with a slow start-up", "no - they are blocked in get_resource() for a resource nobody provides"][svc], "schedule": tape.taken, "timeout": None if notimeout else 1000}
     if escaped is not None:
         return FAIL(f"fault:escaped:{type(escaped).__name__}", f"{escaped!r} log={env.log}", summary)
     e = out["outcome"]
@@ -105,6 +115,8 @@ def fault_fn(a, tier):
                     f"got ({e.phase!r},{e.path!r},{e.component_type}) expected ({PHASES[phase]!r},{exp_path!r},{classes[fnode]})", summary)
     if e.__cause__ is not exc:
         return FAIL(f"fault:cause-lost:{PHASES[phase]}", repr(e.__cause__), summary)
+    if out.get("after") is not None:
+        return FAIL(f"fault:surrounding-context-unusable-after-the-failure:{type(out['after']).__name__}", repr(out["after"]), summary)
     anc = []
     p = parents[fnode]
     while p != -1:
@@ -162,11 +174,11 @@ FAULT = Harness(
     title="one component fails in one phase at one moment; every tree shape; deviation-bounded schedules",
     bound_text=lambda tier: f"all rooted trees with 1..{4 if tier == 'quick' else 5} components x failing component x phase{{creating,preparing,starting}} x "
     "moment{first statement, after a checkpoint} x exception{plain Exception, a ComponentStartError instance} x type given as class / 'module:attr' string x timeout{1000, None} x other components "
-    "{no service, start a service task with a slow start-up, with a start-up that never completes, start a task-factory task with a slow start-up}; FIFO schedule with "
+    "{no service, start a service task with a slow start-up, with a start-up that never completes, start a task-factory task with a slow start-up, wait in get_resource() for a resource nobody provides}; FIFO schedule with "
     + ("one deviation within the first 8 decisions" if tier == "quick" else "one deviation within the first 12 decisions, trees of up to 5 components"),
     oracle="ComponentStartError(phase, path, class) with __cause__ the original exception object; no start() of any ancestor; no startup/watchdog "
     "task alive and nothing of the tree logged after start_component raised (context kept open past the start timeout); an interrupted "
-    "service start is gone and its teardown action is never invoked; everything registered before the failure (callbacks and service tasks, cancelled or stopped "
+    "service start is gone and its teardown action is never invoked; a publication on the surrounding context right after the failure works; everything registered before the failure (callbacks and service tasks, cancelled or stopped "
     "through a callable) is torn down in ONE reverse order when the surrounding context is left",
     outside="two simultaneous failures; BaseException failures; trees with more components",
     stubs=STUBS_COMMON,
@@ -254,4 +266,98 @@ TIME = Harness(
     realize_samples=True,
 )
 
-HARNESSES = [FAULT, TIME]
+
+# ------------------------------------------------------------------------------ F-factory
+def fac_params(tier):
+    L = 8 if tier == "quick" else 12
+    return [P("fsteps", 0, 1), P("delay", 0, 2), P("deep", 0, 1), P("notimeout", 0, 1), P("gap0", 0, L), P("arm0", 0, 3)]
+
+
+@guard
+def fac_fn(a, tier):
+    """Exactly one component fails - because the async resource factory it triggers raises - while another component is waiting for that very generation."""
+    L = 8 if tier == "quick" else 12
+    fsteps, delay, deep, notimeout = 1 + pick(a["fsteps"], 2), pick(a["delay"], 3), pick(a["deep"], 2), pick(a["notimeout"], 2)
+    tape = DeviationTape([(a["gap0"], a["arm0"])], L)
+    env = Env()
+    boom = Boom("factory failed")
+    calls = []
+
+    async def factory():
+        calls.append(env.misc.get(("req", anyio.get_current_task().id)))
+        me = calls[-1]
+        for _ in range(fsteps):
+            await anyio.sleep(0)
+        raised.append(me)
+        raise boom
+
+    raised = []
+
+    def mark(env_, node):
+        env.misc[("req", anyio.get_current_task().id)] = node.idx
+
+    # root publishes the factory in prepare(); 'api' and 'worker' (the latter optionally one level deeper) both need the resource in start()
+    api = NodeSpec(1, 0, [], [("call", mark), ("wait", "r", RT[0], "shared")], alias="api")
+    mid = NodeSpec(2, 0, [], [("td", "mid")], alias="mid")
+    worker = NodeSpec(3, 2 if deep else 0, [], [("cp",)] * delay + [("call", mark), ("wait", "r", RT[0], "shared")], alias="worker")
+    root = NodeSpec(0, -1, [("fac", "F", factory, "shared", [RT[0]]), ("td", "root")], [])
+    nodes = [root, api, mid, worker]
+    classes = build_classes(env, nodes)
+    out = {}
+
+    async def main():
+        async with Context():
+            try:
+                await start_component(classes[0], {}, timeout=None if notimeout else 1000)
+                out["outcome"] = None
+            except BaseException as e:  # noqa
+                out["outcome"] = e
+            out["mark"] = len(env.log)
+            for _ in range(5):
+                await anyio.sleep(0)
+            out["late"] = env.log[out["mark"]:]
+
+    _, escaped, k = run(main, chooser=tape)
+    summary = {"factory_checkpoints_before_it_raises": fsteps, "worker_delay": delay, "worker_below": "mid" if deep else "root", "timeout": None if notimeout else 1000,
+               "schedule": tape.taken, "factory_called_by": list(calls)}
+    if escaped is not None:
+        return FAIL(f"factory:escaped:{type(escaped).__name__}", repr(escaped), summary)
+    e = out["outcome"]
+    if not calls:
+        return FAIL("factory:never-called", "", summary)
+    if len(raised) != 1:
+        return OK(summary, nontrivial=False)  # the factory raised in two components: two failures, outside the statement
+    failing = raised[0]
+    if not isinstance(e, ComponentStartError):
+        return FAIL(f"factory:wrong-error-type:{type(e).__name__}", f"{e!r} log={env.log}", summary)
+    if (e.phase, e.path, e.component_type) != ("starting", path_of(nodes, failing), classes[failing]) or e.__cause__ is not boom:
+        return FAIL("factory:imprecise", f"got ({e.phase!r},{e.path!r},{e.component_type}, cause {e.__cause__!r}), the factory was run by node {failing}", summary)
+    if ("start_begin", 0) in env.log:
+        return FAIL("factory:ancestor-start-ran", env.log, summary)
+    if out["late"]:
+        return FAIL("factory:activity-after-start_component-raised", out["late"], summary)
+    reg = [ev[1] for ev in env.log if ev[0] == "td_registered"]
+    ran = [ev[1] for ev in env.log if ev[0] == "td"]
+    if ran != list(reversed(reg)):
+        return FAIL("factory:registered-callbacks-not-torn-down", f"{reg} {ran}", summary)
+    if k.live_tasks():
+        return FAIL("factory:task-alive-after-exit", [t.name for t in k.live_tasks()], summary)
+    return OK(summary, True)
+
+
+FACTORY = Harness(
+    prop="C07",
+    name="F-factory",
+    fn=fac_fn,
+    params=fac_params,
+    cube=lambda tier: 3,
+    title="the failure is an async resource factory raising inside one component's start() while another component waits for the same generation",
+    bound_text=lambda tier: "root publishes an async factory that raises after 1-2 checkpoints; components 'api' and 'worker' (a sibling, or one level deeper) both request the "
+    "resource in start(), the worker after 0-2 checkpoints; timeout 1000 / None; FIFO with one deviation within the first " + ("8" if tier == "quick" else "12") + " decisions",
+    oracle="as long as the factory raised in one component only (a second call that is cancelled before it raises is no failure): ComponentStartError('starting', that component's path and class) with the factory's exception as cause - not a "
+    "group, no second error from the component that was merely waiting; no ancestor start(); nothing runs afterwards; callbacks torn down LIFO",
+    outside="the factory raising in both components (two failures)",
+    stubs=STUBS_COMMON,
+)
+
+HARNESSES = [FAULT, FACTORY, TIME]
